@@ -29,14 +29,19 @@ def sgAdjE (g : Graph) (S hidden : List Nat) : Array (List (Nat × Int × Nat)) 
       else if w = v then none
       else some (sgNode g.n w (if S.contains e then !s else s), g.weight e, e)
 
+/-- one heap oracle per search of a phase: first argument = the search's index (the VERTEX `v` in the all-vertices loops,
+the EDGE id `e` in the hidden-edge loops and in the single-edge shortcut), second argument = the weight limit passed to
+that search -/
+abbrev PickFam := Nat → Option Int → Pick
+
 /-- one call of `bidirectional_signed_dijkstra(g, weight, signed_edges, hidden_edges, …, s, s_pos, t, t_pos, use_limit, limit)` -/
-def searchSigned (g : Graph) (pick : List Nat → Nat) (S hidden : List Nat) (s : Nat) (sPos : Bool) (t : Nat) (tPos : Bool)
+def searchSigned (g : Graph) (pick : Pick) (S hidden : List Nat) (s : Nat) (sPos : Bool) (t : Nat) (tPos : Bool)
     (limit : Option Int) : Cyc (List Nat) :=
   biSearch (sgAdjE g S hidden) pick g.weight limit (sgNode g.n s sPos) (sgNode g.n t tPos)
 
 /-- `|S| ≥ n`: `for v in vertices: res = search(v+, v-, limit = best); if found and (no best or res < best) best = res` -/
-def allVerticesLoop (g : Graph) (pick : List Nat → Nat) (S : List Nat) : Cyc (List Nat) :=
-  seqMin (fun v L => searchSigned g pick S [] v true v false L) 0 g.n
+def allVerticesLoop (g : Graph) (pk : PickFam) (S : List Nat) : Cyc (List Nat) :=
+  seqMin (fun v L => searchSigned g (pk v L) S [] v true v false L) 0 g.n
 
 /-- what one step of the hidden-edge loop makes of a search result for signed edge `e` -/
 def hiddenTake (g : Graph) (e : Nat) (best res : Cyc (List Nat)) : Cyc (List Nat) :=
@@ -52,19 +57,19 @@ def hiddenTake (g : Graph) (e : Nat) (best res : Cyc (List Nat)) : Cyc (List Nat
 
 /-- the result of the search for signed edge `e` with the edges `hid` hidden, as a complete cycle candidate: the path
 plus `e` (`none` when nothing is found or the path already contains `e`) -/
-def hiddenSearch (g : Graph) (pick : List Nat → Nat) (S hid : List Nat) (e : Nat) (limit : Option Int) : Cyc (List Nat) :=
-  searchSigned g pick S hid (g.src e) true (g.tgt e) true limit
+def hiddenSearch (g : Graph) (pk : PickFam) (S hid : List Nat) (e : Nat) (limit : Option Int) : Cyc (List Nat) :=
+  searchSigned g (pk e limit) S hid (g.src e) true (g.tgt e) true limit
 
 /-- `|S| < n`: the hidden-edge heuristic; the list argument is the not yet visited part of the `std::set` iteration,
 which is also the current hidden set (`hidden_edges.erase(hidden_edges.begin())` after every search) -/
-def hiddenLoop (g : Graph) (pick : List Nat → Nat) (S : List Nat) : List Nat → Cyc (List Nat) → Cyc (List Nat)
+def hiddenLoop (g : Graph) (pk : PickFam) (S : List Nat) : List Nat → Cyc (List Nat) → Cyc (List Nat)
   | [], best => best
   | e :: rest, best =>
-    hiddenLoop g pick S rest (hiddenTake g e best (hiddenSearch g pick S (e :: rest) e (best.map (·.1))))
+    hiddenLoop g pk S rest (hiddenTake g e best (hiddenSearch g pk S (e :: rest) e (best.map (·.1))))
 
 /-- the odd-cycle search of one phase of `mcb_sva_signed` -/
-def signedPhaseSearch (g : Graph) (pick : List Nat → Nat) (σ : List Nat) (S : List Nat) : Cyc (List Nat) :=
-  if g.n ≤ S.length then allVerticesLoop g pick S else hiddenLoop g pick S σ none
+def signedPhaseSearch (g : Graph) (pk : PickFam) (σ : List Nat) (S : List Nat) : Cyc (List Nat) :=
+  if g.n ≤ S.length then allVerticesLoop g pk S else hiddenLoop g pk S σ none
 
 /-- phases `k, k+1, …` of the main loop for a per-phase search `search k S`; the support bookkeeping is the literal
 `swapAt`/`swapIndex`/`updateSup` of `Model/DePina.lean`.  A phase without result emits the initial value of `best`
@@ -83,50 +88,50 @@ def mcbSignedCore (v : Variant) (N : Nat) (sup0 : List (List Nat)) (search : Nat
   let ph := signedPhases v search N 0 sup0
   { cycles := ph.map (·.1), weight := ph.foldl (fun acc p => acc + p.2) 0 }
 
-/-- `mcb_sva_signed`: `order` = iteration order of `spanning_forest`'s unordered_set, `pick` = behaviour of the heaps,
+/-- `mcb_sva_signed`: `order` = iteration order of `spanning_forest`'s unordered_set, `pick k i L` = behaviour of the heaps of search `i` (limit `L`) of phase `k`,
 `σ k S` = iteration order of the `std::set<Edge>` of signed edges in phase `k` -/
-def mcbSigned (g : Graph) (order : List Nat) (pick : List Nat → Nat) (σ : Nat → List Nat → List Nat) : McbResult :=
+def mcbSigned (g : Graph) (order : List Nat) (pick : Nat → PickFam) (σ : Nat → List Nat → List Nat) : McbResult :=
   let fi := createIndex g order
   let gi := reindex g fi
-  let r := mcbSignedCore .signed fi.dim (unitSupports fi.dim) (fun k S => signedPhaseSearch gi pick (σ k S) S)
+  let r := mcbSignedCore .signed fi.dim (unitSupports fi.dim) (fun k S => signedPhaseSearch gi (pick k) (σ k S) S)
   { cycles := translateBack fi.reverse r.cycles, weight := r.weight }
 
 /-! ### the TBB variant (parmcb_sva_signed_tbb.hpp) -/
 
 /-- `find_all_vertices`: `parallel_reduce` over the vertices, running minimum as weight limit, joined by `cycle_min` -/
-def allVerticesTbb (g : Graph) (pick : List Nat → Nat) (S : List Nat) (s : Sched) : Cyc (List Nat) :=
-  reduceMin (fun v L => searchSigned g pick S [] v true v false L) s
+def allVerticesTbb (g : Graph) (pk : PickFam) (S : List Nat) (s : Sched) : Cyc (List Nat) :=
+  reduceMin (fun v L => searchSigned g (pk v L) S [] v true v false L) s
 
 /-- one index of `find_less_than_vertices`: signed edge `σ[i]`, hidden set = `σ[i], σ[i+1], …` (a suffix of the `std::set`
 order, computed per index), the path completed by the signed edge -/
-def hiddenIndexTbb (g : Graph) (pick : List Nat → Nat) (S σ : List Nat) (i : Nat) (limit : Option Int) : Cyc (List Nat) :=
+def hiddenIndexTbb (g : Graph) (pk : PickFam) (S σ : List Nat) (i : Nat) (limit : Option Int) : Cyc (List Nat) :=
   match σ[i]? with
   | none => none
-  | some e => hiddenTake g e none (hiddenSearch g pick S (σ.drop i) e limit)
+  | some e => hiddenTake g e none (hiddenSearch g pk S (σ.drop i) e limit)
 
-def hiddenTbb (g : Graph) (pick : List Nat → Nat) (S σ : List Nat) (s : Sched) : Cyc (List Nat) :=
-  reduceMin (hiddenIndexTbb g pick S σ) s
+def hiddenTbb (g : Graph) (pk : PickFam) (S σ : List Nat) (s : Sched) : Cyc (List Nat) :=
+  reduceMin (hiddenIndexTbb g pk S σ) s
 
 /-- `find_single_edge`: a support with exactly one signed edge `e` is searched with an EMPTY signed set and `e` hidden,
 without limit -/
-def singleEdgeTbb (g : Graph) (pick : List Nat → Nat) (e : Nat) : Cyc (List Nat) :=
-  hiddenTake g e none (searchSigned g pick [] [e] (g.src e) true (g.tgt e) true none)
+def singleEdgeTbb (g : Graph) (pk : PickFam) (e : Nat) : Cyc (List Nat) :=
+  hiddenTake g e none (searchSigned g (pk e none) [] [e] (g.src e) true (g.tgt e) true none)
 
 /-- `OddCycleFinder::find` -/
-def signedPhaseSearchTbb (g : Graph) (pick : List Nat → Nat) (σ : List Nat) (S : List Nat) (s : Sched) : Cyc (List Nat) :=
+def signedPhaseSearchTbb (g : Graph) (pk : PickFam) (σ : List Nat) (S : List Nat) (s : Sched) : Cyc (List Nat) :=
   match S with
-  | [e] => singleEdgeTbb g pick e
-  | _ => if g.n ≤ S.length then allVerticesTbb g pick S s else hiddenTbb g pick S σ s
+  | [e] => singleEdgeTbb g pk e
+  | _ => if g.n ≤ S.length then allVerticesTbb g pk S s else hiddenTbb g pk S σ s
 
 /-- `mcb_sva_signed_tbb`: `perm` = the order in which the concurrent `push_back`s filled the support vector,
 `scheds k S` = the execution of phase `k`'s `parallel_reduce` (the parallel support update equals the sequential one for
 every tiling: `C03.c03_update_for`) -/
-def mcbSignedTbb (g : Graph) (order : List Nat) (pick : List Nat → Nat) (σ : Nat → List Nat → List Nat)
+def mcbSignedTbb (g : Graph) (order : List Nat) (pick : Nat → PickFam) (σ : Nat → List Nat → List Nat)
     (perm : List Nat) (scheds : Nat → List Nat → Sched) : McbResult :=
   let fi := createIndex g order
   let gi := reindex g fi
   let r := mcbSignedCore .signedTbb fi.dim (perm.map fun i => [i])
-    (fun k S => signedPhaseSearchTbb gi pick (σ k S) S (scheds k S))
+    (fun k S => signedPhaseSearchTbb gi (pick k) (σ k S) S (scheds k S))
   { cycles := translateBack fi.reverse r.cycles, weight := r.weight }
 
 end Parmcb
